@@ -24,6 +24,9 @@ anything is sent — no schedule bound reaches 10**4 requests — and "jump" sce
 the execution must be pairwise distinct and the numbers must be the injected counter values onwards.
 "solo" scenarios build ONE connection object and nothing else on its ``_HttpConnImpl`` (no derived
 connection, caller or clone is ever constructed); both threads use that single object.
+Lock timeouts are ENVIRONMENT ANSWERS: ``acquire(timeout=t)`` on a held lock either blocks or "elapses"
+(bounded number of elapsed answers per execution).  The unchanged tree never passes a timeout, so no such
+choice point arises there (reported in the evidence's extra counters, not a required feature).
 "fault" scenarios are FAULT INJECTION on the transport: ``opener.open`` is an explicit scheduling point (the
 thread sits inside ``open()`` while the other thread may issue and finish whole requests) and then raises
 ``urllib.error.URLError`` / ``HTTPError`` for the marked request.  A request that reached ``open()`` was
@@ -193,6 +196,9 @@ PLAN = {
 }
 
 
+ENV_BOUND = {"quick": 1, "thorough": 2}     # "the timeout elapsed" answers of acquire(timeout=...) per execution
+
+
 def bounds(tier):
     return {"scenarios": {name: {"threads": SCENARIOS[name][0], "points": SCENARIOS[name][1],
                                  "warm_up_request": SCENARIOS[name][2],
@@ -205,6 +211,9 @@ def bounds(tier):
             "state_injection": "scenarios named preset*: the harness writes _HttpConnImpl._cur_req_id of the "
                                "brand-new connection (and again, +jump, after the threads) instead of issuing "
                                "10**4 .. 10**12 requests",
+            "lock_timeouts": f"acquire(timeout>=0) on a held lock is an environment choice (block | elapsed); "
+                             f"<= {ENV_BOUND[tier]} 'elapsed' answers per execution; no such call in the tree -> "
+                             f"no choice point (extra.max_timeout_acquire_choice_points... == 0)",
             "run_to_completion": True}
 
 
@@ -611,6 +620,11 @@ def _visit_factory(name, acc, seed):
             feats.append("preempt-in-critical-region")
         if ex.blocked_events:
             feats.append("blocked-on-lock")
+        acc.note_max("timeout_acquire_choice_points_in_one_execution__0_means_not_used_by_the_tree", ex.env_points)
+        if ex.env_points:
+            feats.append("timeout-acquire:choice-point")
+        if ex.env_answers:
+            feats.append("timeout-acquire:timeout-elapsed")
         if obs["overtaken_faulty"]:
             feats.append("fault:other-request-completed-while-inside-open")
         acc.case(nontrivial=bool(ex.preempt_in_cs or ex.blocked_events), features=feats,
@@ -648,7 +662,7 @@ def run_shard(shard, tier, seed, acc):
             return ex
         root = [[0, start]] if start != 0 else []
         nrun, complete = sched.explore(run, root, bound, visit, shard=(r, m), expired=acc.expired, rng=rng,
-                                       min_step=1)
+                                       min_step=1, env_bound=ENV_BOUND[tier])
         acc.note_sum("executions_including_shard_roots", nrun)
         acc.note_sum("module_level_state_restored", _LEAKS[0])
         _LEAKS[0] = 0
@@ -696,12 +710,21 @@ def selftest():
                 with self.l2:
                     self.n += 1
 
+        def lax(self):
+            ok = self.l1.acquire(timeout=0.5)      # result not enforced
+            try:
+                v = self.n
+                self.n = v + 1
+            finally:
+                if ok:
+                    self.l1.release()
+
         def ba(self):
             with self.l2:
                 with self.l1:
                     self.n += 1
 
-    def explore_toy(m0, m1, bound):
+    def explore_toy(m0, m1, bound, env_bound=0):
         res = {"lost": 0, "deadlock": 0, "n": 0}
         box = [None]
 
@@ -718,7 +741,7 @@ def selftest():
             elif ex.obs != 2:
                 res["lost"] += 1
         for start in (0, 1):
-            sched.explore(run, [[0, start]] if start else [], bound, visit, min_step=1)
+            sched.explore(run, [[0, start]] if start else [], bound, visit, min_step=1, env_bound=env_bound)
         return res
 
     def schedules(m0, m1, bound, nshards):
@@ -734,7 +757,7 @@ def selftest():
                               min_step=1)
         return seen
 
-    sched.instrument({f.__code__: None for f in (Box.racy, Box.safe, Box.ab, Box.ba)})
+    sched.instrument({f.__code__: None for f in (Box.racy, Box.safe, Box.ab, Box.ba, Box.lax)})
     try:
         whole, parts = schedules(Box.racy, Box.racy, 2, 1), schedules(Box.racy, Box.racy, 2, 3)
         assert len(set(whole)) == len(whole) == len(parts) and set(whole) == set(parts), \
@@ -745,6 +768,8 @@ def selftest():
         assert b["lost"] == 0 and b["deadlock"] == 0 and b["n"] > a["n"], b
         c = explore_toy(Box.ab, Box.ba, 1)
         assert c["deadlock"] > 0, c
+        d0, d1 = explore_toy(Box.lax, Box.lax, 1, 0), explore_toy(Box.lax, Box.lax, 1, 1)
+        assert d0["lost"] == 0 and d1["lost"] > 0 and d1["n"] > d0["n"], (d0, d1)   # timeout = environment answer
     finally:
         sched.uninstrument()
     assert _number("ab120001-0000-0000-0000-000000000001") == 1
